@@ -4,6 +4,7 @@ import (
 	"fmt"
 	"github.com/uhn/ggql/pkg/ggql"
 	"strings"
+	"sync/atomic"
 
 	"verif/internal/back"
 	"verif/internal/gen"
@@ -521,6 +522,7 @@ func runC10(c *run.Ctx) {
 	injected += c10Unbound(c)
 	injected += c10AfterFailedLoad(c)
 	injected += c10RootMoved(c)
+	injected += c10ReflectRequired(c)
 	injected += c10Subscription(c)
 	c.MinNontriv = injected / 2
 	c.Set("defects_injected", injected)
@@ -1142,6 +1144,67 @@ func c10RootMoved(c *run.Ctx) int {
 			if diag != "" {
 				c.Violation("c10-root-moved", map[string]interface{}{"history": hist, "document": p.text, "offender": p.offend, "diag": diag, "response": fmt.Sprint(resp)})
 				break
+			}
+		}
+	}
+	return done
+}
+
+// c10ReflectRequired: the reflection strategy binds a field to a Go METHOD; a required (non-null, no default) argument of
+// that field left out of the request - with no argument at all, or with only the optional one - is the request's error:
+// the response names the argument, the position is null and the method is not called with a made-up value. Valid calls
+// right next to it run.
+func c10ReflectRequired(c *run.Ctx) int {
+	const sdl = "type Query { a: Int item: Item items: [Item] }\ntype Item { name: String sub: Item greet(name: String!, loud: Boolean): String }\n"
+	reqs := []struct {
+		text  string
+		calls int64 // valid greet calls in the request
+	}{
+		{`{ item { greet } }`, 0},
+		{`{ item { name greet } a }`, 0},
+		{`{ items { greet name } }`, 0},
+		{`{ item { sub { g: greet } } }`, 0},
+		{`{ item { ...F } } fragment F on Item { greet }`, 0},
+		{`{ item { ... on Item { greet(loud: true) } } }`, 0},
+		{`{ item { ok: greet(name: "Bo") bad: greet } }`, 1},
+		{`{ item { bad: greet ok: greet(name: "Bo", loud: false) } }`, 1},
+		{`query Q($l: Boolean) { item { greet(loud: $l) } }`, 0},
+	}
+	done := 0
+	for round := 0; round < c.N(4, 40); round++ {
+		for _, rq := range reqs {
+			r := c.Rand(795000 + round)
+			q := &c07SQuery{A: 1, Item: &c07SItem{Name: "i", Sub: &c07SItem{Name: "s"}}, Items: []*c07SItem{{Name: "l0"}, {Name: "l1"}}}
+			root := ggql.NewRoot(&c07SRoot{Query: q})
+			if err := root.ParseString(sdl); err != nil {
+				c.Violation("c10-schema-rejected", map[string]interface{}{"error": err.Error()})
+				return done
+			}
+			if r.Intn(2) == 0 {
+				_ = root.ResolveString(`{ item { greet(name: "warm") } }`, "", nil) // the method is bound already
+			}
+			before := atomic.LoadInt64(&c07GreetCalls)
+			var resp map[string]interface{}
+			pv, _ := run.Protect(func() { resp = root.ResolveString(rq.text, "", nil) })
+			calls := atomic.LoadInt64(&c07GreetCalls) - before
+			done++
+			c.Eval(fmt.Sprintf("reflect-required|%s|%d", rq.text, round), true)
+			c.Bucket("defect", "missing-required-arg")
+			c.Bucket("container", "object-bound-by-reflection-to-a-method")
+			msgs := fmt.Sprint(resp["errors"])
+			diag := ""
+			switch {
+			case pv != nil:
+				diag = fmt.Sprint("panic: ", pv)
+			case resp["errors"] == nil:
+				diag = "no error reported for the missing required argument"
+			case !strings.Contains(msgs, "name"):
+				diag = "no error message names the missing argument"
+			case calls != rq.calls:
+				diag = fmt.Sprintf("the method was invoked %d times, %d of the calls in the request are valid", calls, rq.calls)
+			}
+			if diag != "" {
+				c.Violation("c10-missing-required-arg", map[string]interface{}{"backend": "reflect (method)", "sdl": sdl, "document": rq.text, "diag": diag, "response": fmt.Sprint(resp)})
 			}
 		}
 	}
